@@ -77,5 +77,8 @@ pub use broker::{Broker, BrokerHandle, BrokerShutdown};
 pub use conn::{Connection, ConnectionError, ConnectionHandle};
 
 #[cfg(kani)]
+#[path = "/verif/harness/broker/collections.rs"]
+mod verif_collections;
+#[cfg(kani)]
 #[path = "/verif/harness/broker/mod.rs"]
 mod verif;
